@@ -53,6 +53,11 @@ def run(seed=0, rounds=40):
         ok("ndarray.sort", r_ is None and srt.shape == cat.shape and np.all(srt[:-1] <= srt[1:]) and sorted(cat.tolist()) == srt.tolist())
         msk = w > np.median(w)
         ok("mask read", w[msk].ndim == 1 and 0 <= len(w[msk]) <= len(w) and np.any(msk) == bool(len(w[msk])))
+        # row selection of a Series (helper of the property lemmas) is positional, with repeats, in the order asked for
+        ser = pd.Series(list(rng.integers(0, 4, size=n)), index=[f"i{q % 2}" for q in range(n)])
+        sel = [rnd.randrange(n) for _ in range(rnd.randint(0, 6))]
+        got = ser.iloc[[int(q) for q in sel]]
+        ok("series.iloc[rows]", len(got) == len(sel) and all(got.iloc[i] == ser.iloc[sel[i]] for i in range(len(sel))))
         # stacking
         V = np.vstack((A[:lo, :], np.zeros((1, m)), A[lo:, :]))
         ok("vstack", V.shape == (n + 1, m) and np.array_equal(V[:lo], A[:lo]) and not V[lo].any() and np.array_equal(V[lo + 1:], A[lo:]))
